@@ -254,6 +254,13 @@ impl Preprocessor {
         start: bool,
     ) -> Result<Option<Rc<SExp>>, CompileErr> {
         if let SExp::Cons(l, f, r) = body.borrow() {
+            // Quoted data is not code: leave whatever it spells alone.
+            if let SExp::Atom(_, head) = f.borrow() {
+                if start && (head == b"q" || head == &[1]) {
+                    return Ok(None);
+                }
+            }
+
             // First expand inner macros.
             let first_expanded = self.expand_macros(f.clone(), true)?;
             let rest_expanded = self.expand_macros(r.clone(), false)?;
